@@ -1,3 +1,4 @@
 import CohdlVerif.Model.DriverLoop
--- model driver of property C16 (stub: no model entry points yet)
-def main : IO Unit := CohdlVerif.driverLoop (fun _ => "bad-op")
+import CohdlVerif.Model.C16Timing
+-- model driver of property C16: `wait` | `delay` | `cc` | `div` | `tog` | `deb` | `cp` (see Model/C16Timing.lean)
+def main : IO Unit := CohdlVerif.driverLoop CohdlVerif.C16.handle
